@@ -12,9 +12,29 @@ import (
 // C05 — node positions span exactly the node's own tokens and nest properly.
 // The monitor itself is checkSpans (spans.go); it only applies to error-free parses.
 
+// an error-free tree returned earlier is checked a second time after the next, unrelated Parse call: its
+// positions must still be what they were (position storage recycled or shared between parses shows here)
+var c05Prev struct {
+	root ast.Vertex
+	src  []byte
+	ver  string
+	fp   string
+}
+
 func c05Case(c *core.Ctx, pc parseCase) {
 	c.Inflight(pc.Src, "C05 parse "+pc.Ver)
 	pr := obs.Parse(pc.Src, pc.Ver, true)
+	if c05Prev.root != nil {
+		if now := obs.Fingerprint(c05Prev.root, false); now != c05Prev.fp {
+			c.Violation("span|earlier-tree-changed-by-later-parse|"+c13Where(c05Prev.fp, now), "the positions of a tree returned by an earlier Parse call changed while a later, unrelated Parse call ran: "+obs.FirstDiff(c05Prev.fp, now), core.W(c05Prev.src, c05Prev.ver).With("later_input", obsQuote(pc.Src, 200)))
+		}
+		c.Add("earlier_trees_re-read_after_a_later_parse", 1)
+		c05Prev.root = nil
+	}
+	if pr.Panic == nil && pr.Root != nil && len(pr.Errors) == 0 && len(pc.Src) < 6000 {
+		c05Prev.root, c05Prev.src, c05Prev.ver = pr.Root, pc.Src, pc.Ver
+		c05Prev.fp = obs.Fingerprint(pr.Root, false)
+	}
 	if pr.Panic != nil || pr.Root == nil {
 		c.Add("parses_without_tree_or_panicked", 1)
 		return
@@ -44,7 +64,7 @@ func c05Case(c *core.Ctx, pc parseCase) {
 func init() {
 	core.Register(&core.Check{
 		ID:   "C05",
-		Rule: "cases = known-finding witnesses ++ PRNG mix of {corpus snippets, line-terminator rewrites, block-crossing concatenations, generated programs in PRNG trivia layouts, hostile inputs that happen to parse cleanly} x PRNG version; only error-free parses are judged; every node's recorded span is compared with the span computed bottom-up from the tokens of its subtree under the documented conventions; non-trivial = error-free tree with >= 3 nodes; distinct by (input bytes, version)",
+		Rule: "cases = known-finding witnesses ++ PRNG mix of {corpus snippets, line-terminator rewrites, block-crossing concatenations, generated programs in PRNG trivia layouts, hostile inputs that happen to parse cleanly} x PRNG version; only error-free parses are judged; every node's recorded span is compared with the span computed bottom-up from the tokens of its subtree under the documented conventions; the previous error-free tree of the worker is fingerprinted again after each parse; non-trivial = error-free tree with >= 3 nodes; distinct by (input bytes, version)",
 		Assumptions: []string{
 			"conventions encoded: Root ignores EndTkn; trait adaptations ignore their semicolon; a node without constituents has a nil/all -1 position; an empty statement list (Stmts, or the catch list of a try) forming a boundary yields -1 which propagates to ancestors bounded by that child",
 			"struct field order = source order of a node's constituents (separator lists interleaved with the list they follow)",
